@@ -280,6 +280,43 @@ def make_machine():
             self._do(dict(req, fallback=first), longlived)
             self._do(dict(req, fallback=not first), longlived)
 
+        @rule(rs=same_type, cold=st.booleans())
+        def concurrent_same_type(self, rs, cold):
+            """requests for several cultures of one model type issued at the same time by harness threads through ONE recogniser
+            (cold: the cache is cleared first, so that the models are being constructed while the other requests arrive)"""
+            import threading
+            if cold:
+                self.clear_cache()
+            self.trace.append(['concurrent', rs, cold])
+            getter = rs[0]['getter']
+            o = rs[0]['options']
+            key = (getter, None, o)
+            try:
+                if key not in _LONG:
+                    _LONG[key] = rec_class(getter)(None, options_obj(getter, o), False)
+            except ValueError:
+                return
+            barrier = threading.Barrier(len(rs))
+            outs = [None] * len(rs)
+
+            def work(k):
+                barrier.wait(timeout=30)
+                outs[k] = perform(dict(rs[k], options=o), True)
+            ths = [threading.Thread(target=work, args=(k,)) for k in range(len(rs))]
+            for t in ths:
+                t.start()
+            for t in ths:
+                t.join()
+            for k, r in enumerate(rs):
+                v = judge(dict(r, options=o), outs[k])
+                if v is not None and self.pending is None:
+                    self.pending = v
+            # the same requests again, sequentially, through the same recogniser: whatever the race left behind shows here
+            for r in rs:
+                v = judge(dict(r, options=o), perform(dict(r, options=o), True))
+                if v is not None and self.pending is None:
+                    self.pending = v
+
         @rule(rs=same_type)
         def burst_same_type(self, rs):
             for r in rs:
@@ -374,6 +411,25 @@ def replay_trace(case):
         elif s[0] == 'clear_cache':
             ModelFactory._ModelFactory__cache.clear()
             _LONG.clear()
+        elif s[0] == 'concurrent':
+            import threading
+            rs = s[1]
+            outs = [None] * len(rs)
+            barrier = threading.Barrier(len(rs))
+
+            def work(k):
+                barrier.wait(timeout=30)
+                outs[k] = perform(rs[k], True)
+            ths = [threading.Thread(target=work, args=(k,)) for k in range(len(rs))]
+            for t in ths:
+                t.start()
+            for t in ths:
+                t.join()
+            for k, r in enumerate(rs):
+                for out in (outs[k], perform(r, True)):
+                    v = judge(r, out)
+                    if v is not None:
+                        vs.append(v)
     return R(vs, nontrivial=True)
 
 
